@@ -82,6 +82,18 @@ def run_case(case):
     flists = [gen.mk_list(x) for x in ([({}, k1)], [({}, k1)], [({}, k2)], [({}, k1), t0], [({}, k2), t0], [t0, ({}, k1)], [t0])]
     eq, hs = matrix(flists)
     evs.append({"kind": "list", "objs": [d_list(x) for x in flists], "eq": eq, "hash": hs, "copies": [[1, 2]]})
+    # --- terms and lists produced by an operation: a renaming that makes two coefficients cancel
+    from pacti.iocontract import Var as _V
+    base_t = gen.mk_term(({"x": 1, "y": -1, "z": 4}, 3))
+    ren = [base_t.rename_variable(_V("y"), _V("x")), gen.mk_term(({"z": 4}, 3)), base_t.rename_variable(_V("y"), _V("q")), gen.mk_term(({"x": 1, "q": -1, "z": 4}, 3))]
+    ren += [ren[0].copy(), ren[2].copy()]
+    eq, hs = matrix(ren)
+    evs.append({"kind": "term", "objs": [d_term(t) for t in ren], "eq": eq, "hash": hs, "copies": [[1, 5], [3, 6], [1, 2], [3, 4]]})
+    base_l = gen.mk_list([({"x": 1, "y": -1, "z": 4}, 3), ({"y": 2}, 1)])
+    rl = [base_l.rename_variable(_V("y"), _V("x")), gen.mk_list([({"z": 4}, 3), ({"x": 2}, 1)])]
+    rl.append(rl[0].copy())
+    eq, hs = matrix(rl)
+    evs.append({"kind": "list", "objs": [d_list(x) for x in rl], "eq": eq, "hash": hs, "copies": [[1, 3], [1, 2]]})
     # --- lists
     rows = d["g"] + d["a"]
     L0 = gen.mk_list(rows)
@@ -117,6 +129,9 @@ def run_case(case):
     if d["a"]:
         variant(a=[(dict(d["a"][0][0]), d["a"][0][1] + 1)] + d["a"][1:])
     variant(g=list(reversed(d["g"])))
+    # a variable moved across the input / output boundary, the concatenation of the two lists unchanged
+    variant(inv=d["inv"][:-1], outv=[d["inv"][-1]] + d["outv"])
+    variant(inv=d["inv"] + [d["outv"][0]], outv=d["outv"][1:])
     variant(a=d["a"] + [({}, 2)])            # assumptions that differ only in a row without variables
     variant(a=d["a"] + [({}, 7)])
     eq, hs = matrix(objs)
